@@ -48,6 +48,15 @@ fn main() {
     // a call into the subject that never returns must not make the check itself hang
     let wd = std::env::var("VERIF_WATCHDOG_S").ok().and_then(|s| s.parse::<f64>().ok()).unwrap_or(if tier == Tier::Quick { 240.0 } else { 1500.0 });
     common::start_watchdog(&args[1], wd);
+    common::install_abort_handler(&args[1]);
+    if std::env::var("VERIF_TEST_ABORT").is_ok() {
+        // self-test of the abort handler: overflow the stack inside a guarded call
+        fn rec(n: u64) -> u64 {
+            let a = std::hint::black_box([n; 64]);
+            if std::hint::black_box(n) == u64::MAX { 0 } else { std::hint::black_box(rec(n + 1)) + a[(n % 64) as usize] }
+        }
+        println!("{:?}", common::catch(|| rec(0)));
+    }
     let code = match args[1].as_str() {
         "C01" => props::c01::run(tier),
         "C02" => props::c02::run(tier),
